@@ -355,9 +355,34 @@ class Run(object):
         if not os.path.exists(p):
             return
         led = json.load(open(p)).get(self.pid, [])
+        # Sites are named by ordinals of calls / loops / ifs / asserts in source order.  An edit that adds or removes an unrelated call
+        # in another branch shifts those ordinals without losing any obligation, so the comparison is made on names with the ordinals
+        # removed, as multisets: every ledgered obligation must still have a generated counterpart (a lost one is still noticed).
+        import collections
+        import re
+
+        def norm(o_):
+            head_, _, site_ = o_.rpartition('::')
+            site_ = re.sub(r'^(loop|if|assert)\d+', r'\1#', site_)
+            site_ = re.sub(r'^(call:[^#]+)#i?\d+', r'\1#', site_)
+            return head_ + '::' + site_
+        def carrier(o_):
+            # the obligations that CARRY a property: postconditions, frame conditions, exception clauses, result aliasing, lemma
+            # statements.  Obligations at code sites (preconditions of calls the code makes, the code's own assert statements, loop
+            # invariants, ghost assertions) support them; how many of those exist is the code's business - an edit that removes an
+            # assert statement or a call loses no claim - they only have to be discharged when they are generated.
+            if o_.startswith('lemma::'):
+                return True
+            site_ = o_.rpartition('::')[2]
+            return site_.startswith(('post', 'frame', 'raises', 'no_raise', 'safety', 'extract'))
+        led = [o_ for o_ in led if carrier(o_)]
+        have_n = collections.Counter(norm(o_) for o_ in self.obligations)
         have = set(self.obligations)
+        need_n = collections.Counter(norm(o_) for o_ in led)
+        missing_norm = {k_: need_n[k_] - have_n.get(k_, 0) for k_ in need_n if need_n[k_] > have_n.get(k_, 0)}
         for oid in led:
-            if oid not in have:
+            if oid not in have and missing_norm.get(norm(oid), 0) > 0:
+                missing_norm[norm(oid)] -= 1
                 key = '::'.join(oid.split('::')[:2])
                 self.obligations[oid] = {'n': 0, 'ok': 0, 'time': 0.0, 'backends': [], 'discharged': False, 'key': key,
                                          'failed': [{'result': 'not-generated', 'line': None, 'attempts': [],
